@@ -267,6 +267,10 @@ def _check_val_and_text(ctx, tag, lang, cases, thr="0000000000000000", with_text
     return failures, len(reqs)
 
 
+# request seeds of the uniform variant functions (every choice point takes option k), see Driver/Gen.lean `varOf`
+UNIFORM = tuple(10 ** 9 + k for k in (1, 2, 3, 4, 5))
+
+
 def long_groups(ctx, lang, k=16):
     """the 3-digit groups whose standard spelling is longest in UTF-8 bytes (a boundary class of its own: buffers,
     length limits and byte/char confusions bite there first) — computed from the Lean speller"""
@@ -295,7 +299,7 @@ def oracle_c01(ctx, focus, langs=None):
     failures, n, distinct = [], 0, set()
     for li, lang in enumerate(langs or LANGS):
         nums = card_numbers(ctx.tier, ctx.seed, li)
-        nums += [(x, sd) for x in long_numbers(ctx, lang) for sd in (0, 1 + (x % 999983))]
+        nums += [(x, sd) for x in long_numbers(ctx, lang) for sd in (0, 1 + (x % 999983)) + UNIFORM]
         gl = ["gen\tcard\t%s\t%d\t%d" % (lang, n_, s) for (n_, s) in nums]
         cases = _spec_cases(ctx, "c01" + lang, gl)
         # text-level check on a third of the cases
@@ -338,7 +342,7 @@ def oracle_c04(ctx, focus, langs=None):
     for lang in (langs or LANGS):
         ordmax, ninfl = ORD_SPEC[lang]
         oc = ord_cases(ctx.tier, ctx.seed, lang, ordmax, ninfl)
-        oc += [(r, sd, i) for r in long_numbers(ctx, lang, limit=ordmax + 1) for (sd, i) in ((0, 0), (1 + r % 999983, (r % ninfl)))]
+        oc += [(r, sd, i) for r in long_numbers(ctx, lang, limit=ordmax + 1) for (sd, i) in ((0, 0), (1 + r % 999983, (r % ninfl))) + tuple((u, (r + u) % ninfl) for u in UNIFORM)]
         gl = ["gen\tord\t%s\t%d\t%d\t%d" % (lang, r, s, i) for (r, s, i) in oc]
         cases = _spec_cases(ctx, "c04" + lang, gl)
         a = [c for i, c in enumerate(cases) if i % 2 == 0]
@@ -369,6 +373,15 @@ def oracle_c05(ctx, focus, langs=None):
             k = 1 + rng.below(6)
             d = "".join(str(rng.below(10)) if rng.chance(2, 3) else "0" for _ in range(k))
             gl.append("gen\tdec\t%s\t%d\t%d\t%s" % (lang, rng.below(10 ** 9) if rng.chance(1, 2) else rng.below(1000), rng.below(10 ** 6), d))
+        # the wordiest cases: the longest integer spellings (below 10^9) with the longest 3- and 6-digit fractions, in
+        # several variant functions (split / unhyphenated styles have the most words)
+        lg = long_groups(ctx, lang)[:6]
+        longints = [x for x in long_numbers(ctx, lang, limit=10 ** 9) if x >= 10 ** 6][:24] + [a * 10 ** 6 + b * 10 ** 3 + a for a in lg[:4] for b in lg[:4]]
+        longfr = ["%03d" % a for a in lg] + ["%03d%03d" % (a, b) for a in lg[:4] for b in lg[:4]]
+        for x in longints:
+            for d in longfr[:: 1 if ctx.tier == "thorough" else 3]:
+                for sd in (0, 1 + (x % 99991)) + UNIFORM:
+                    gl.append("gen\tdec\t%s\t%d\t%d\t%s" % (lang, x, sd, d))
         cases = _spec_cases(ctx, "c05" + lang, gl)
         pre, suf = CONTEXT[lang]
         reqs = []
